@@ -563,6 +563,8 @@ def fullstack_run(kind, ops, cfg, max_acc, answers):
                     results.append('none' if r is None else 'octets:' + H(bytes(r)))
             except nfc.snep.SnepError as e:
                 results.append('sneperror:%d' % e.errno)
+            except nfc.llcp.Error as e:          # the link or the connection went down under the operation
+                results.append('llcperror:%d' % e.errno)
         info['results'] = list(results)      # the transfers are over; what follows is connection release
         info['log'] = list(srv.app.log)
         sock.close()
@@ -1251,6 +1253,21 @@ def main():
         sl = ho_msg(rng, nfrag * 128 - 1, True)
         fullstack('ho', [('ho', rq)], cfgl, 0, [('h', sl)], 'exchange-long',
                   {'log': ['ho:' + H(rq)], 'results': ['octets:' + H(sl)]})
+    # through the real nfc.dep.Initiator / Target exchange (loopback clf): link and socket MIU 500 .. 2175, so that
+    # single I PDUs are chained over 3 and more NFC-DEP frames, in both directions and both roles of the client
+    for lm, side in ((1024, 'i'), (1024, 't'), (2175, 't'), (500, 'i'), (248, 't')):
+        cfgd = {'miu_i': lm, 'miu_t': lm, 'agf': lm == 500, 'srv_side': side, 'srv_miu': lm, 'srv_rw': 2, 'cl_miu': lm, 'cl_rw': 2,
+                'dep': True}
+        mm = ndef_msg(rng, 3 * lm + 17)
+        rr = ndef_msg(rng, 2 * lm + 700)
+        fullstack('snep', [('put', mm), ('get', mm, 0x100000)], cfgd, 0x100000, [('p', 0x81), ('gm', rr)], 'dep-put-get',
+                  {'log': ['put:' + H(mm), 'get:' + H(mm)], 'results': ['true', 'octets:' + H(rr)]})
+        rq = ho_msg(rng, 2 * lm + 600, False)
+        sl = ho_msg(rng, 2 * lm + 650, True)
+        fullstack('ho', [('ho', rq)], cfgd, 0, [('h', sl)], 'dep-exchange',
+                  {'log': ['ho:' + H(rq)], 'results': ['octets:' + H(sl)]})
+    flush()
+
     # one SnepClient object: one-shot requests, then connect(second service) + requests + close, then one-shot again
     m_ = [ndef_msg(rng, n) for n in (40, 300, 7, 500, 129, 60)]
     hist0 = [('oneshot', ('put', m_[0]), b''),
@@ -1275,8 +1292,12 @@ def main():
         cfgh = {'miu_i': rng.choice([128, 248, 1024]), 'miu_t': rng.choice([128, 200, 2175]), 'agf': rng.random() < 0.5,
                 'srv_side': rng.choice(['i', 't']), 'srv_miu': rng.choice([128, 248, 1984]), 'srv_rw': rng.choice([1, 2, 15]),
                 'cl_miu': 128, 'cl_rw': 1}
+        if rng.random() < 0.4:
+            cfgh.update({'dep': True, 'miu_i': rng.choice([500, 1024, 2175]), 'miu_t': rng.choice([500, 1024, 2175]),
+                         'srv_miu': 1984, 'cl_miu': 1984})
         mm = min(cfgh['srv_miu'], cfgh['miu_t'] if cfgh['srv_side'] == 't' else cfgh['miu_i'])
-        history(gen_history([mm, 128], [mm, 128]), [[mm, 128], [mm, 128]], cfgh)
+        rm = min(cfgh['cl_miu'], cfgh['miu_i'] if cfgh['srv_side'] == 't' else cfgh['miu_t'])
+        history(gen_history([mm, rm], [mm, rm]), [[mm, rm], [mm, rm]], cfgh)
     flush()
 
     tick('histories')
@@ -1429,6 +1450,12 @@ def main():
         cfg = {'miu_i': pick_link_miu(), 'miu_t': pick_link_miu(), 'agf': rng.random() < 0.5, 'srv_side': rng.choice(['i', 't']),
                'srv_miu': rng.choice([128, 248, 1984, rng.randrange(128, 2176)]), 'srv_rw': rng.choice([1, 1, 2, 15, rng.randrange(1, 16)]),
                'cl_miu': rng.choice([128, 128, 248, 1984, rng.randrange(128, 2176)]), 'cl_rw': rng.choice([1, 1, 2, 15, rng.randrange(1, 16)])}
+        if rng.random() < 0.4:
+            # the real nfc.dep below LLCP; link MIU from {248, 500, 1024, 2175}, sockets at least as large, so that
+            # single LLCP PDUs exceed 502 octets (3+ chained NFC-DEP frames) in both directions
+            lm_i, lm_t = rng.choice([248, 500, 1024, 2175]), rng.choice([248, 500, 1024, 2175])
+            cfg.update({'dep': True, 'miu_i': lm_i, 'miu_t': lm_t, 'srv_miu': rng.choice([1984, 2175, max(lm_i, lm_t)]),
+                        'cl_miu': rng.choice([1984, 2175, max(lm_i, lm_t)])})
         cl_link = cfg['miu_i'] if cfg['srv_side'] == 't' else cfg['miu_t']
         srv_link = cfg['miu_t'] if cfg['srv_side'] == 't' else cfg['miu_i']
         smiu = min(cfg['srv_miu'], srv_link)        # what the client may send per fragment
@@ -1488,7 +1515,8 @@ def main():
     ck.cov['traces_validated_against_impl'] = nval[0]
     ck.cov['correspondence_mismatches'] = nmis[0]
     ck.finish(level='proof',
-              rule='corpus first (histories of one SnepClient object: one-shot requests, connect(second service) + requests + close, '
+              rule='corpus first (full stack through the real nfc.dep exchange with link MIU 248/500/1024/2175 and I PDUs chained over 3+ '
+                   'NFC-DEP frames in both directions; histories of one SnepClient object: one-shot requests, connect(second service) + requests + close, '
                    'one-shot again, against two servers, coupled and full-stack; second handover request on a connection; multi-record messages whose record boundaries fall '
                    'exactly on fragment boundaries; full-stack transfers of 17-35 fragments per direction with receive window '
                    '1, 2, 15). message sizes 0..6*MIU with k*MIU(-header)-7..+7, multi-record messages (2-4 records) with record '
